@@ -1838,6 +1838,9 @@ func (mn mon) Replay(v drv.Violation, c *drv.Ctx) {
 	if cs.LongN > 0 {
 		reps = 40
 	}
+	if cs.Cons.DwellMs > 0 {
+		reps = 4 // every repetition costs the dwell; what a dwell exposes does not depend on the schedule
+	}
 	for i := 0; i < reps; i++ {
 		k, e, o, inc := runCase(cs, st)
 		c.Eval(1)
